@@ -429,7 +429,7 @@ struct TreeSim {
 // ----------------------------------------------------------------------------------------------------------------------
 // C11: histories on one shared context vs. the same operation on a fresh context
 
-struct Triple { int res = 0, rc = -1, ec = -1; bool operator==(const Triple &o) const { return res == o.res && rc == o.rc && ec == o.ec; } };
+struct Triple { int res = 0, rc = -1, ec = -1; bool cut = false; bool operator==(const Triple &o) const { return res == o.res && rc == o.rc && ec == o.ec; } };
 
 static uint64_t str_kind(const std::string &k) { uint64_t h = 1469598103934665603ULL; for (char c : k) h = (h ^ (unsigned char)c) * 1099511628211ULL; return h; }
 
@@ -534,6 +534,7 @@ struct CtxSim {
 		e.fault_at = (size_t)op.arg(9);
 		bw.arm(e);
 		t.res = KSI_SignatureVerifier_verify(policy_of((int)op.arg(1)), &vc, &pr);
+		t.cut = bw.fault_fired;
 		bw.disarm();
 		if (pr) { t.rc = (int)pr->finalResult.resultCode; t.ec = (int)pr->finalResult.errorCode; }
 		KSI_PolicyVerificationResult_free(pr);
@@ -589,8 +590,12 @@ struct CtxSim {
 			K.ev("VERIFY sig=%zu policy=%lld -> res=0x%x rc=%d ec=%d | again res=0x%x rc=%d ec=%d | fresh res=0x%x rc=%d ec=%d", idx, (long long)(op.arg(1) % 4), a.res, a.rc, a.ec, b.res, b.rc, b.ec, f.res, f.rc, f.ec);
 			K.count(a.rc == 0 ? "outcome.verify_ok" : a.rc == 1 ? "outcome.verify_na" : "outcome.verify_fail");
 			if (op.arg(1) % 4 != 0 || op.arg(2) % 4 != 0) nontrivial = true;
-			if (!(a == b)) K.fail("C11", "verification-not-repeatable", "verify", "the same verification twice gives (0x%x,%d,%d) then (0x%x,%d,%d)", a.res, a.rc, a.ec, b.res, b.rc, b.ec);
-			if (fs && !(a == f)) K.fail("C11", "verdict-depends-on-context-history", "verify", "verdict on the shared context (0x%x,%d,%d) differs from the verdict on a fresh context (0x%x,%d,%d)", a.res, a.rc, a.ec, f.res, f.rc, f.ec);
+			if (a.cut != b.cut) K.count("probe.fault_cut_only_one_of_the_twin_replies");
+			else if (!(a == b)) K.fail("C11", "verification-not-repeatable", "verify", "the same verification twice gives (0x%x,%d,%d) then (0x%x,%d,%d)", a.res, a.rc, a.ec, b.res, b.rc, b.ec);
+			// the transport fault sits at a byte offset; the reply to a long-lived context is a byte longer once its request ids need
+			// two bytes, so the same offset may cut one reply and spare the other: only like is compared with like
+			if (fs && a.cut != f.cut) K.count("probe.fault_cut_only_one_of_the_twin_replies");
+			else if (fs && !(a == f)) K.fail("C11", "verdict-depends-on-context-history", "verify", "verdict on the shared context (0x%x,%d,%d) differs from the verdict on a fresh context (0x%x,%d,%d)", a.res, a.rc, a.ec, f.res, f.rc, f.ec);
 			if (!fs) K.fail("C11", "accepted-signature-rejected-later", "fresh-parse", "a fresh context rejects the signature (0x%x)", pres);
 			if (fs) KSI_Signature_free(fs);
 			KSI_CTX_free(fc);
@@ -793,7 +798,7 @@ struct HistoryEngine : run::Engine {
 		p.cfg["ext_http"] = (int64_t)g.below(2);
 		p.cfg["adv"] = g.chance(1, 3) ? 0 : 1;
 		p.cfg["faults"] = g.chance(1, 2) ? 0 : 1;
-		p.cfg["loglevel"] = g.chance(1, 4) ? 5 : 0;
+		p.cfg["loglevel"] = g.chance(1, 4) ? g.pickl<int64_t>({5, 5, 6, 7}) : 0;
 		p.cfg["epoch_ms"] = (int64_t)g.below(1000);
 		p.cfg["warm"] = g.chance(1, 25) ? (int64_t)g.range(250, 258) : 0;
 		p.cfg["sig_extra"] = g.chance(1, 2) ? 0 : (int64_t)g.range(1, 5);
